@@ -27,9 +27,18 @@
     configuration cannot be read any more, an entry that is gone).
     The repository lookup (Mvs/Locate.v): [find_project_repository dial M p] is findProjectRepository with the memo [M]
     of the resolver ([memo_reach]: after any lookups in any order); [locate] what it computes on a miss (the
-    well-known host, or dialing ever shorter prefixes of the path); [dial]: the addresses that answer. *)
+    well-known host, or dialing ever shorter prefixes of the path); [dial]: the addresses that answer.
+    The version strings as they are written (Mvs/Gate.v): [gate v] is the test LoadConfigBytes applies to every
+    requirement version of every configuration (semver.IsValid(v) && semver.Canonical(v) == v, on the string);
+    [cmp_version_str] is reqs.go cmpVersion (semver.Compare, which orders by precedence) and [max_str] Reqs.Max on
+    the strings; [spell p] = 'v' major '.' minor '.' patch prerelease.  The records of Mvs/Version.v stand for gated
+    strings only.  [load_config d] (Mvs/Cache.v) is what resolveProject reads out of a project directory [d].
+    The root project's two configuration files (Mvs/LoadRoot.v): [load_config_loop obs rne pick fuel toml dot] is
+    project_config.go loadConfig on a root directory whose dawn.toml / .dawnconfig are [toml] / [dot] (missing, not a
+    configuration, a configuration); [rne c]: the error mvs.BuildList reports for the requirements c unwraps to
+    fs.ErrNotExist; [project_config toml dot]: the project's configuration (dawn.toml's when there is one). *)
 From Dawn Require Import Mvs.Spec Mvs.Proofs_C10 Mvs.Cache Mvs.Proofs_Cache Mvs.Load Mvs.Proofs_Load Mvs.Locate
-  Mvs.Proofs_Locate.
+  Mvs.Proofs_Locate Mvs.Gate Mvs.Proofs_Gate Mvs.LoadRoot Mvs.Proofs_LoadRoot.
 
 (** every processing order, every finite universe (cycles included), every root requirement list:
     an error exactly when a reachable requirement cannot be resolved, otherwise exactly the MVS solution *)
@@ -149,6 +158,37 @@ Theorem load_fails_or_solution :
 Proof. exact Proofs_Load.load_fails_or_solution. Qed.
 Print Assumptions load_fails_or_solution.
 
+(** the root project, loaded from its own two files: Load fails or Project.buildList is the solution of the graph of the
+    project's configuration -- when the root has ONE configuration file, or the failure BuildList reports is not a
+    missing file *)
+Theorem load_root_fails_or_solution :
+  forall (U : universe) (deliver : node -> option (list wr)) (W : node -> Prop),
+    deliver_sound U deliver W -> key_sound U W -> requirements_closed U W ->
+    forall (obs : node -> option summary) (rne : config -> bool) (pick : list node -> nat) (fuel : nat)
+           (toml dot : root_file) (c : config),
+      project_config toml dot = Some c ->
+      (toml = RMissing \/ dot = RMissing \/ rne c = false) ->
+      observed_damaged deliver W obs -> (forall m, In m (map snd c) -> fst m = [] \/ W m) ->
+      (u_fuel U (map snd c) <= fuel)%nat ->
+      (exists b, load_config_loop obs rne pick fuel toml dot = FErr b) \/
+      (exists l, load_config_loop obs rne pick fuel toml dot = FOk l /\ mvs_solution (reachable_from U (map snd c)) l).
+Proof. exact Proofs_LoadRoot.load_root_fails_or_solution. Qed.
+Print Assumptions load_root_fails_or_solution.
+
+(** REFUTED without that proviso (a defect of project_config.go loadConfig, reported; DESIGN section 5): the root has a
+    dawn.toml and a left-over .dawnconfig, and a cache entry has lost its configuration file -- loadConfig takes the
+    "does not exist" inside mvs.BuildList's error for a missing dawn.toml, loads the left-over file, and Load succeeds
+    with a list that is not the solution of the project's requirement graph (with the cache intact it is) *)
+Theorem load_root_left_over_refuted :
+  exists (U : universe) (c c' : config) (keys : list node) (l : list (str * version)),
+    let obs := obs_damaged U keys in
+    project_config (RConfig c) (RConfig c') = Some c /\
+    (forall pick, load_config_loop obs (fun _ => true) pick (u_fuel U (map snd c)) (RConfig c) (RConfig c') = FOk l) /\
+    ~ mvs_solution (reachable_from U (map snd c)) l /\
+    (forall pick, load_config_loop (obs_damaged U []) (fun _ => true) pick (u_fuel U (map snd c)) (RConfig c) (RConfig c') <> FOk l).
+Proof. exact Proofs_LoadRoot.load_root_left_over_refuted. Qed.
+Print Assumptions load_root_left_over_refuted.
+
 (** the repository lookup does not depend on what the resolver looked up before (in which order the projects of a
     repository were met): a memo hit is what a miss would compute *)
 Theorem find_repository_order_independent :
@@ -165,6 +205,46 @@ Theorem find_repository_sound :
     fst (find_project_repository dial M p) = Some x -> rejoin x = trim_path_version p /\ dial (fst x) = true.
 Proof. exact Proofs_Locate.find_repository_sound. Qed.
 Print Assumptions find_repository_sound.
+
+(** "THE highest version": among the version strings that a configuration can carry (the gate of LoadConfigBytes) no two
+    different strings are of equal precedence, so the running maximum of Reqs.Max does not depend on which
+    requirement it meets first *)
+Theorem admitted_versions_never_tie :
+  forall a b : str, gate a = true -> gate b = true -> cmp_version_str a b = Eq -> a = b.
+Proof. exact Proofs_Gate.admitted_versions_never_tie. Qed.
+Print Assumptions admitted_versions_never_tie.
+
+(** what the gate admits: valid, no build metadata, not a short form -- the string is its own canonical spelling *)
+Theorem admitted_version_spelling :
+  forall v : str, gate v = true ->
+    exists p, parse v = Some p /\ p_short p = [] /\ p_build p = [] /\ v = spell p.
+Proof. exact Proofs_Gate.gate_spec. Qed.
+Print Assumptions admitted_version_spelling.
+
+(** ... and the gate is needed: valid versions it rejects ("v1.2.0+a" / "v1.2.0+b"; "v1.2" next to the admitted
+    "v1.2.0") are different strings of equal precedence, and Reqs.Max answers with whichever it is given first *)
+Theorem unadmitted_versions_tie :
+  exists a b c d : str,
+    is_valid a = true /\ is_valid b = true /\ a <> b /\ cmp_version_str a b = Eq /\ max_str a b <> max_str b a /\
+    gate c = true /\ is_valid d = true /\ c <> d /\ cmp_version_str c d = Eq /\ max_str c d <> max_str d c /\
+    gate a = false /\ gate b = false /\ gate d = false.
+Proof. exact Proofs_Gate.unadmitted_versions_tie. Qed.
+Print Assumptions unadmitted_versions_tie.
+
+(** which file holds a project's requirements: a project that has a dawn.toml is configured by it, whatever else its
+    tree holds -- a left-over .dawnconfig included *)
+Theorem config_file_precedence :
+  forall d d' : dir, dir_get d s_dawn_toml <> None -> dir_get d' s_dawn_toml = dir_get d s_dawn_toml ->
+    load_config d' = load_config d.
+Proof. exact Proofs_Gate.config_file_precedence. Qed.
+Print Assumptions config_file_precedence.
+
+(** ... and only a project without dawn.toml is configured by its .dawnconfig *)
+Theorem config_file_fallback :
+  forall d : dir, dir_get d s_dawn_toml = None ->
+    load_config d = match dir_get d s_dawnconfig with Some (Cfg r) => r | _ => None end.
+Proof. exact Proofs_Gate.config_file_fallback. Qed.
+Print Assumptions config_file_fallback.
 
 (** the version order behind "highest": a total order on canonical versions with "none" least and the root's
     empty version greatest *)
